@@ -54,6 +54,10 @@ def renamed_helpers(facts, norm):
     out = set()
     if not missing:
         return out
+    moved = {}
+    for (scope, sig), nps in missing.items():
+        for np_ in nps:
+            moved.setdefault((np_.rsplit('::', 1)[-1], sig), []).append(np_)
     new = [np_ for np_ in present if np_ not in base]
     for np_ in new:
         d = json.loads(facts._raw[present[np_]][0])
@@ -61,6 +65,11 @@ def renamed_helpers(facts, norm):
         scope = scope_of(np_)
         # same scope, or a sibling impl block of the same type (`impl T { .. }` split in two prints the same scope)
         if missing.get((scope, sig)):
+            out.add(np_)
+        # MOVED: same name, arity and return type as a reference function that no longer exists at its old place (an
+        # impl block relocated to another module prints a different path: `m::<impl From<X> for T>::from` becomes
+        # `<T as From<X>>::from`)
+        elif moved.get((np_.rsplit('::', 1)[-1], sig)):
             out.add(np_)
     return out
 
@@ -119,7 +128,8 @@ def inline_once(d, bb, callee):
     """splice callee dict into d at the call terminating block bb"""
     t = d['blocks'][bb]['t']
     lo, bo = len(d['locals']), len(d['blocks'])
-    c = copy.deepcopy(callee)
+    import json
+    c = json.loads(json.dumps(callee))      # a private copy WITHOUT shared sub-objects (renumbering is in place)
     d['locals'] = d['locals'] + c['locals']
     for v in c.get('dbg', []):
         v = dict(v)
